@@ -877,6 +877,8 @@ func (m *serverHelloMsg) unmarshal(data []byte) bool {
 			fullExt[3] = byte(len(extData))
 			copy(fullExt[4:], extData)
 			m.unknownExtensions = append(m.unknownExtensions, fullExt)
+			// The extension body is kept verbatim, not parsed.
+			continue
 		}
 
 		if !extData.Empty() {
